@@ -223,6 +223,89 @@ def single_def_resolver(fn: ast.AST):
     return defs
 
 
+def eq_is_conjunction(prog: Program, res, rule: str, ci: ClassInfo, eq) -> None:
+    """equality of two objects means equality of EVERY compared component: the boolean expression an `__eq__` returns is
+    false as soon as one of its component comparisons is false (decided by folding the returned expression, on the
+    symbolic paths, with each comparison in turn set to false and all others to true)"""
+    from .. import symx as _sx
+
+    try:
+        paths = _sx.explore(prog, eq, inline=_sx.inline_private_helpers(prog), max_paths=300)
+    except _sx.TooManyPaths:
+        return
+    if eq.name == "__eq__":
+        # for an operand of the same type the comparison is carried out: NotImplemented / a constant False is only
+        # returned on paths that have established that the other operand is of another type
+        for p in paths:
+            if p.outcome != "return" or p.value is None:
+                continue
+            v = _sx.strip_wrappers(p.value)
+            gives_up = (isinstance(v, ast.Name) and v.id == "NotImplemented") or (isinstance(v, ast.Constant) and v.value is False)
+            if not gives_up:
+                continue
+            lits = p.literals()
+            same_type = [pol for t, pol in lits if isinstance(t, ast.Call) and isinstance(t.func, ast.Name) and t.func.id == "isinstance"]
+            if same_type and all(same_type) and len(same_type) == len(lits):  # (nothing else was decided on this path)
+                res.violation(rule, eq, p.node or eq.node, f"{ci.name}.__eq__ gives up ({unparse(v)}) for an operand that IS of the same type: two equal containers never compare equal (Python falls back to identity), compatibility checks built on `==` reject everything", key_extra="eq-gives-up-same-type")
+                return
+    for p in paths:
+        if p.outcome != "return" or p.value is None:
+            continue
+        v = _sx.strip_wrappers(p.value)
+        if not isinstance(v, (ast.BoolOp, ast.UnaryOp)):
+            continue
+        atoms: list = []
+
+        def collect(e):
+            if isinstance(e, ast.BoolOp):
+                for x in e.values:
+                    collect(x)
+            elif isinstance(e, ast.UnaryOp) and isinstance(e.op, ast.Not):
+                collect(e.operand)
+            else:
+                if not any(e is a for a in atoms):
+                    atoms.append(e)
+
+        collect(v)
+        comps = [a for a in atoms if len({y.id for y in ast.walk(a) if isinstance(y, ast.Name)} & set(eq.param_names()[:2])) == 2]
+        if eq.name == "__eq__":
+            # reflexive: each component comparison asks for equality (`a.x == b.x`, array_equal(a.x, b.x)), positively
+            pm_ = parents_map(v)
+            for a in comps:
+                negs = 0
+                cur = pm_.get(id(a))
+                while cur is not None:
+                    if isinstance(cur, ast.UnaryOp) and isinstance(cur.op, ast.Not):
+                        negs += 1
+                    cur = pm_.get(id(cur))
+                unequal = isinstance(a, ast.Compare) and len(a.ops) == 1 and isinstance(a.ops[0], (ast.NotEq, ast.IsNot))
+                if unequal != (negs % 2 == 1):
+                    res.violation(rule, eq, p.node or eq.node, f"{ci.name}.__eq__ demands that `{unparse(a)[:60]}` {'is false' if negs % 2 else 'holds'}: an object does not compare equal to an identical copy of itself (equality is not reflexive), every check built on equality rejects operands that agree", key_extra="eq-not-reflexive")
+                    return
+        if len(comps) < 2 or len(atoms) > 12:
+            continue
+
+        def val(e, env):
+            if isinstance(e, ast.BoolOp):
+                vs = [val(x, env) for x in e.values]
+                return all(vs) if isinstance(e.op, ast.And) else any(vs)
+            if isinstance(e, ast.UnaryOp) and isinstance(e.op, ast.Not):
+                return not val(e.operand, env)
+            return env[id(e)]
+
+        weak = [a for a in comps if val(v, {id(x): (x is not a) for x in atoms})]
+        if weak:
+            res.violation(
+                rule,
+                eq,
+                p.node or eq.node,
+                f"{ci.name}.{eq.name} is true although `{unparse(weak[0])[:60]}` is false (the partial verdicts are not joined by `and`): containers that differ there pass as equal / compatible, and everything built on that verdict (operand checks, cache reuse) lets them through",
+                key_extra="eq-not-conjunction",
+            )
+            return
+        res.ok(rule, res.site(eq, "conjunction"), f"false as soon as one of the {len(comps)} component comparisons is false", nontrivial=False)
+
+
 def eq_covers_slots(prog: Program, res, rule: str, ci: ClassInfo, *, exceptions: dict | None = None) -> None:
     """generic rule: __eq__ of a slotted class reads every slot (directly, through a loop over
     __slots__/to_dict, or through a property that reads it)."""
@@ -232,6 +315,7 @@ def eq_covers_slots(prog: Program, res, rule: str, ci: ClassInfo, *, exceptions:
         eq = prog.find_method(ci, "__eq__")
     if eq is None:
         raise AnalysisError(f"{rule}: {ci.name} has no __eq__")
+    eq_is_conjunction(prog, res, rule, ci, eq)
     slots = [s for s in (ci.slots or []) if not s.startswith("__")]
     if not slots:
         slots = [a for a in ci.class_ann if not a.startswith("_")]
